@@ -69,6 +69,7 @@ pub fn run(only: &[String]) -> Vec<String> {
     // text level (tokenizer + parser): every prefix (at char boundaries) of valid, malformed and non-ASCII texts
     let texts = ["(app (var $x) ?y)[?a := (lam $z (var $z))]", "(lam $x (app (var $x) 7))", "(var $x (var $y))", "(app ?a ?b ?c)", "?x", "7",
                  "?b[?x := (app ?a ?c ?d)]", "(lam $y ?t)[(var $x ?y) := ?z]", "(app ?\u{3bb} ?y)", "(var $\u{e9})", "(caf\u{e9} ?x ?y)", "\u{3bb}\u{a0}x (", "?a[$x := ?\u{1d4b3}]", "( : $ ? := ]"];
+    let re_label: String = only.iter().find(|x| ["is_term", "pattern_to_re"].contains(&x.as_str())).cloned().unwrap_or("RecExpr::parse".to_string());
     let tok_fns = ["tokenize", "crop_ident", "ident_char"];
     let tok_label: Option<String> = only.iter().find(|x| tok_fns.contains(&x.as_str())).cloned();
     for t in texts {
@@ -84,10 +85,10 @@ pub fn run(only: &[String]) -> Vec<String> {
                     _ => {}
                 }
             }
-            if want("RecExpr::parse") && count[4] < 3 {
+            if (want("RecExpr::parse") || want("is_term") || want("pattern_to_re")) && count[4] < 3 {
                 match std::panic::catch_unwind(|| RecExpr::<BL>::parse(s).ok().map(|p| re_ok(&p))) {
-                    Err(_) => { count[4] += 1; fails.push(format!("FAIL RecExpr::parse C18:RecExpr_parse.arity text={:?} -> panic", s)); }
-                    Ok(Some(false)) => { count[4] += 1; fails.push(format!("FAIL RecExpr::parse C18:RecExpr_parse.arity text={:?} -> node with wrong number of children", s)); }
+                    Err(_) => { count[4] += 1; fails.push(format!("FAIL {} C18:RecExpr_parse.arity text={:?} -> panic", re_label, s)); }
+                    Ok(Some(false)) => { count[4] += 1; fails.push(format!("FAIL {} C18:RecExpr_parse.arity text={:?} -> node with wrong number of children", re_label, s)); }
                     _ => {}
                 }
             }
